@@ -30,7 +30,7 @@ import (
 // Op is one step of a token history. Every "which" field is an index taken modulo the current
 // population, so every op means something in every state.
 type Op struct {
-	K string `json:"k"` // transfer recv ack timeout dup force block time update donate grant
+	K string `json:"k"` // transfer recv ack timeout erecv etimeout dup force block time update donate grant
 
 	C int `json:"c,omitempty"` // chain (transfer: source chain)
 	L int `json:"l,omitempty"` // transfer/grant: route index among the routes leaving C; update: link; donate: end on C
@@ -58,6 +58,14 @@ type Op struct {
 	Of    int  `json:"of,omitempty"`    // >0: the packet sent by history step Of-1 (the op does nothing when that step sent none); overrides P
 	H     int  `json:"h,omitempty"`     // proof height: -1 fresh (update the client first), >= 0 index into stored consensus heights
 	Forge bool `json:"forge,omitempty"` // ack: relay the opposite acknowledgement content
+	// boundary race (erecv / etimeout). erecv: take a fresh proof, then let the destination produce
+	// empty blocks until the block that carries the receive has block time == timeout + HD*5 s
+	// (HD in -1,0,+1; the shared clock moves 5 s per block); Pre additionally stores the header of
+	// the destination block just before on the source's client. etimeout: MsgTimeout proven at
+	// exactly (destination height that carried the erecv) + HD, after updating the source's client
+	// with exactly that header (no extra block in between).
+	HD  int  `json:"hd,omitempty"`
+	Pre bool `json:"pre,omitempty"`
 
 	N  int  `json:"n,omitempty"`  // block: blocks; time: seconds; dup: how far back
 	On bool `json:"on,omitempty"` // force: ReceiveEnabled value
@@ -106,15 +114,17 @@ type Step struct {
 	SrcEnd    *End
 	LinkKind  int
 	ExecWrap  bool
-	Covered   bool   // authz model: a grant of the sender to the signer covers the message
+	Covered   bool // authz model: a grant of the sender to the signer covers the message
 	Msg       sdk.Msg
 	DataNote  string // committed packet data differed from the message (should never happen)
 	Coin      string
 	Amount    *big.Int
 	SendDenom Denom
 	// relay details
-	AckSuccess bool // recv: status of the written acknowledgement; ack: content relayed
-	ExpectOK   bool // recv: the model's prediction (made before the transaction) that the receive succeeds
+	Edge        bool // erecv / etimeout
+	EdgeAligned bool // erecv: the carrying block's time equals the packet timeout (in seconds); etimeout: proof height is exactly the requested one
+	AckSuccess  bool // recv: status of the written acknowledgement; ack: content relayed
+	ExpectOK    bool // recv: the model's prediction (made before the transaction) that the receive succeeds
 }
 
 func (st *Step) allow(chain int, labels ...string) {
@@ -286,6 +296,8 @@ func (w *World) Exec(no int, op Op) *Step {
 		w.execTransfer(st)
 	case "recv", "ack", "timeout":
 		w.execRelay(st)
+	case "erecv", "etimeout":
+		w.execEdge(st)
 	case "dup":
 		w.execDup(st)
 	}
@@ -608,6 +620,99 @@ func (w *World) execRelay(st *Step) {
 		msg = w.BuildTimeout(p.P, nsr, h, sig)
 	}
 	w.deliverRelay(st, op.K, p, msg, sig)
+}
+
+// timeoutSec is the packet's timestamp timeout in whole seconds (0: none).
+func timeoutSec(p *sim.Pkt) int64 {
+	if p.V2 {
+		return int64(p.P2.TimeoutTimestamp)
+	}
+	return int64(p.P1.TimeoutTimestamp / 1_000_000_000)
+}
+
+// execEdge runs the boundary-race ops (see Op.HD).
+func (w *World) execEdge(st *Step) {
+	op := st.Op
+	p := w.pktFor(op)
+	if p == nil {
+		return
+	}
+	l := w.Links[p.P.Link]
+	sig := st.Signer
+	srcSide, dstSide := p.P.Dir, 1-p.P.Dir
+	sc, dc := l.Chain[srcSide], l.Chain[dstSide]
+	hd := Pick(3, op.HD+1) - 1
+	st.Pkt, st.Edge = p, true
+	switch op.K {
+	case "erecv":
+		st.Kind, st.Chain = "recv", dc
+		h := w.FreshHeight(l, dstSide, sig)
+		T := timeoutSec(p.P)
+		if T > 0 {
+			target := T + int64(hd)*5
+			if op.Pre {
+				for k := 0; k < 24 && w.Now().Unix() < target-5; k++ {
+					w.Block(dc, 1)
+				}
+				if w.Now().Unix() == target-5 {
+					w.UpdateClientNoCommit(sc, l.Client(srcSide), dc, sig)
+				}
+			}
+			for k := 0; k < 24 && w.Now().Unix() < target; k++ {
+				w.Block(dc, 1)
+			}
+		}
+		st.EdgeAligned = T > 0 && w.Now().Unix() == T && w.Now().Nanosecond() == 0
+		msg := w.BuildRecv(p.P, h, sig)
+		w.deliverRelay(st, "recv", p, msg, sig)
+		p.EdgeH = st.Res.Height
+	case "etimeout":
+		st.Kind, st.Chain = "timeout", sc
+		target := p.EdgeH + int64(hd)
+		if p.EdgeH == 0 {
+			target = w.Height(dc) + int64(hd)
+		}
+		if target < 2 {
+			target = 2
+		}
+		h := uint64(target)
+		have := func() bool {
+			for _, x := range w.StoredHeights(l, srcSide) {
+				if x == h {
+					return true
+				}
+			}
+			return false
+		}
+		if !have() {
+			for k := 0; k < 3 && w.Height(dc) < target; k++ {
+				w.Block(dc, 1)
+			}
+			if w.Height(dc) == target {
+				w.UpdateClientNoCommit(sc, l.Client(srcSide), dc, sig)
+			}
+		}
+		if have() {
+			st.EdgeAligned = true
+		} else {
+			// the exact header is gone: the closest stored height at or above, else a fresh one
+			h = 0
+			for _, x := range w.StoredHeights(l, srcSide) {
+				if x >= uint64(target) && (h == 0 || x < h) {
+					h = x
+				}
+			}
+			if h == 0 {
+				h = w.FreshHeight(l, srcSide, sig)
+			}
+		}
+		var nsr uint64
+		if !p.P.V2 {
+			nsr = w.NextSeqRecv(p.P)
+		}
+		msg := w.BuildTimeout(p.P, nsr, h, sig)
+		w.deliverRelay(st, "timeout", p, msg, sig)
+	}
 }
 
 func (w *World) execDup(st *Step) {
